@@ -314,3 +314,328 @@ pub fn simple_cast_custom_kf<N: Nondet>(_n: &mut N) {
     let _ = r;
     std::mem::forget(d);
 }
+
+// ------------------------------------------------------------------------------------- C19: clone_data / optimize
+// NOT part of any claim: Kani/CBMC does not decide these bodies (c19_clone_pair did not finish in 900 s / 17 GB even
+// with concrete leaves; DESIGN.md section 0 item 10 has the measured cause). They are kept registered so that the
+// measurement can be repeated (`cargo kani --harness proofs::store::c19_clone_pair`) and because `selftest c19_ N`
+// shows natively that the oracle agrees with the unchanged tree.
+
+/// a BasicGarnishData whose data block starts at `data_cells` and grows by `growth` (other blocks small, fixed +4)
+#[cfg(any(kani, garnish_verif))]
+pub fn sized_basic(data_cells: usize, growth: usize) -> Basic {
+    use garnish_lang_simple_data::{ReallocationStrategy, StorageSettings};
+    let s = |n: usize| StorageSettings::new(n, usize::MAX, ReallocationStrategy::FixedSize(4));
+    let dblock = StorageSettings::new(data_cells, usize::MAX, ReallocationStrategy::FixedSize(growth));
+    BasicGarnishData::new_with_settings(s(2), s(2), s(2), s(1), dblock, s(0), NoOpCompanion::new()).unwrap()
+}
+
+#[cfg(not(any(kani, garnish_verif)))]
+pub fn sized_basic(_data_cells: usize, _growth: usize) -> Basic {
+    BasicGarnishData::new(NoOpCompanion::new()).unwrap()
+}
+
+pub const FP_LEN: usize = 32;
+
+/// structural read-back of a value through the GarnishData getters only: a pre-order sequence of type codes and
+/// payloads (addresses never enter it). Two values are structurally identical iff their fingerprints are equal.
+pub struct Fingerprint {
+    pub v: [u64; FP_LEN],
+    pub n: usize,
+    /// a getter returned Err / None where a value must be, or the walk ran out of depth
+    pub err: bool,
+}
+
+impl Fingerprint {
+    pub fn new() -> Self {
+        Fingerprint { v: [0; FP_LEN], n: 0, err: false }
+    }
+    fn push(&mut self, x: u64) {
+        if self.n < FP_LEN {
+            self.v[self.n] = x;
+        }
+        self.n += 1;
+    }
+    pub fn same(&self, o: &Fingerprint) -> bool {
+        if self.n != o.n || self.n > FP_LEN || self.err != o.err {
+            return false;
+        }
+        let mut i = 0;
+        let mut eq = true;
+        while i < FP_LEN {
+            if i < self.n && self.v[i] != o.v[i] {
+                eq = false;
+            }
+            i += 1;
+        }
+        eq
+    }
+    pub fn has_error(&self) -> bool {
+        self.err
+    }
+    fn fail(&mut self) {
+        self.err = true;
+        self.push(0);
+    }
+}
+
+pub fn fingerprint(d: &Basic, a: usize, depth: u8, f: &mut Fingerprint) {
+    let t = match ok(d.get_data_type(a)) {
+        Some(t) => t,
+        None => {
+            f.fail();
+            return;
+        }
+    };
+    match t {
+        T::Unit => f.push(1),
+        T::True => f.push(2),
+        T::False => f.push(3),
+        T::Number => {
+            f.push(4);
+            match ok(d.get_number(a)) {
+                Some(SimpleNumber::Integer(v)) => f.push(v as u32 as u64),
+                Some(SimpleNumber::Float(x)) => { f.push(0xF); f.push(x.to_bits()) },
+                None => f.fail(),
+            }
+        }
+        T::Symbol => {
+            f.push(5);
+            match ok(d.get_symbol(a)) {
+                Some(s) => f.push(s),
+                None => f.fail(),
+            }
+        }
+        T::Byte => {
+            f.push(6);
+            match ok(d.get_byte(a)) {
+                Some(b) => f.push(b as u64),
+                None => f.fail(),
+            }
+        }
+        T::Char => {
+            f.push(7);
+            match ok(d.get_char(a)) {
+                Some(c) => f.push(c as u64),
+                None => f.fail(),
+            }
+        }
+        T::Pair | T::Concatenation => {
+            f.push(if matches!(t, T::Pair) { 8 } else { 9 });
+            if depth == 0 {
+                f.fail();
+                return;
+            }
+            let parts = if matches!(t, T::Pair) { ok(d.get_pair(a)) } else { ok(d.get_concatenation(a)) };
+            match parts {
+                Some((l, r)) => {
+                    fingerprint(d, l, depth - 1, f);
+                    fingerprint(d, r, depth - 1, f);
+                }
+                None => f.fail(),
+            }
+        }
+        T::List => {
+            f.push(10);
+            if depth == 0 {
+                f.fail();
+                return;
+            }
+            match ok(d.get_list_len(a)) {
+                Some(len) => {
+                    f.push(len as u64);
+                    let mut i = 0;
+                    while i < len && i < 4 {
+                        match ok(d.get_list_item(a, SimpleNumber::Integer(i as i32))) {
+                            Some(Some(item)) => fingerprint(d, item, depth - 1, f),
+                            _ => f.fail(),
+                        }
+                        i += 1;
+                    }
+                }
+                None => f.fail(),
+            }
+        }
+        _ => f.push(100),
+    }
+}
+
+/// C19 (clone_data): a value of a concrete SHAPE with symbolic leaves is cloned on the real BasicGarnishData
+/// (data block 10 cells, one growth step during the clone). The clone is at a new address, reads back
+/// structurally identical to the original (fingerprint through the public getters, key lookups included) and
+/// the original still reads back as before.
+///   0: (n0 = :s)                 1: p3 = (p2 = p2), p2 = (p1 = p1), p1 = (n0 = n0)  (shared sub-values, 15 paths)
+///   2: (:20 = n0, n1) keyed list 3: ((n0,) <> n1) = (n2 = (n0,))  (concatenation, nested, shared list)
+pub fn basic_clone<N: Nondet, const SHAPE: u8>(n: &mut N) {
+    let mut d = sized_basic(10, 30);
+    let (a, b, c, s) = (n.i32(), n.i32(), n.i32(), n.u64());
+    let n0 = d.add_number(SimpleNumber::Integer(a)).unwrap();
+    let mut keyed = None;
+    let root = match SHAPE {
+        0 => {
+            let y = d.add_symbol(s).unwrap();
+            d.add_pair((n0, y)).unwrap()
+        }
+        1 => {
+            let p1 = d.add_pair((n0, n0)).unwrap();
+            let p2 = d.add_pair((p1, p1)).unwrap();
+            d.add_pair((p2, p2)).unwrap()
+        }
+        2 => {
+            let k = d.add_symbol(KEYS[0]).unwrap();
+            let kp = d.add_pair((k, n0)).unwrap();
+            let n1 = d.add_number(SimpleNumber::Integer(b)).unwrap();
+            let l = d.start_list(2).unwrap();
+            let l = d.add_to_list(l, kp).unwrap();
+            let l = d.add_to_list(l, n1).unwrap();
+            keyed = Some(KEYS[0]);
+            d.end_list(l).unwrap()
+        }
+        _ => {
+            let l = d.start_list(1).unwrap();
+            let l = d.add_to_list(l, n0).unwrap();
+            let list = d.end_list(l).unwrap();
+            let n1 = d.add_number(SimpleNumber::Integer(b)).unwrap();
+            let n2 = d.add_number(SimpleNumber::Integer(c)).unwrap();
+            let cat = d.add_concatenation(list, n1).unwrap();
+            let inner = d.add_pair((n2, list)).unwrap();
+            d.add_pair((cat, inner)).unwrap()
+        }
+    };
+    let mut before = Fingerprint::new();
+    fingerprint(&d, root, 4, &mut before);
+    pa!("C19", !before.has_error() && before.n <= FP_LEN);
+    gv_cover!(true, "value built");
+    let new = match ok(d.clone_data(root)) {
+        Some(x) => x,
+        None => {
+            pa!("C19", false);
+            std::mem::forget(d);
+            return;
+        }
+    };
+    pa!("C19", new != root);
+    let mut copy = Fingerprint::new();
+    fingerprint(&d, new, 4, &mut copy);
+    pa!("C19", copy.same(&before));
+    let mut after = Fingerprint::new();
+    fingerprint(&d, root, 4, &mut after);
+    pa!("C19", after.same(&before));
+    if let Some(k) = keyed {
+        // the key table of the copy finds the same value
+        let (o, c2) = (ok(d.get_list_item_with_symbol(root, k)), ok(d.get_list_item_with_symbol(new, k)));
+        match (o, c2) {
+            (Some(Some(x)), Some(Some(y))) => {
+                let (mut fx, mut fy) = (Fingerprint::new(), Fingerprint::new());
+                fingerprint(&d, x, 2, &mut fx);
+                fingerprint(&d, y, 2, &mut fy);
+                pa!("C19", fx.same(&fy) && !fx.has_error());
+            }
+            _ => pa!("C19", false),
+        }
+        let absent = ok(d.get_list_item_with_symbol(new, KEYS[1]));
+        pa!("C19", matches!(absent, Some(None)));
+    }
+    std::mem::forget(d);
+}
+
+/// C19 (optimize, values): garbage, a value on the value stack, garbage, a value on the operand stack, an extra
+/// root that SHARES a sub-value with the stacked one (a root already reachable from a stack). After optimize the
+/// three read back structurally identical at the addresses the store reports (value stack head, popped operand,
+/// returned mapping). RETAIN: the first values are a retained prefix and must keep their addresses; a value
+/// built after the retention point references a retained one.
+pub fn basic_optimize_values<N: Nondet, const RETAIN: bool>(n: &mut N) {
+    let mut d = sized_basic(16, 30);
+    let (a, b, c, s, g) = (n.i32(), n.i32(), n.i32(), n.u64(), n.i32());
+    let n0 = d.add_number(SimpleNumber::Integer(a)).unwrap();
+    let r1 = d.add_pair((n0, n0)).unwrap();
+    if RETAIN {
+        d.retain_all_current_data();
+    }
+    let _g0 = d.add_number(SimpleNumber::Integer(g)).unwrap();
+    let y = d.add_symbol(s).unwrap();
+    let v = d.add_pair((r1, y)).unwrap();
+    d.push_value_stack(v).unwrap();
+    let _g1 = d.add_pair((y, y)).unwrap();
+    let n1 = d.add_number(SimpleNumber::Integer(b)).unwrap();
+    d.push_register(n1).unwrap();
+    let n2 = d.add_number(SimpleNumber::Integer(c)).unwrap();
+    let extra = d.add_pair((y, n2)).unwrap();
+    let _g2 = d.add_unit().unwrap();
+    let (mut fv, mut fr, mut fe, mut fp) = (Fingerprint::new(), Fingerprint::new(), Fingerprint::new(), Fingerprint::new());
+    fingerprint(&d, v, 4, &mut fv);
+    fingerprint(&d, n1, 4, &mut fr);
+    fingerprint(&d, extra, 4, &mut fe);
+    fingerprint(&d, r1, 4, &mut fp);
+    pa!("C19", !fv.has_error() && !fe.has_error());
+    gv_cover!(true, "store filled");
+    let roots = [extra, r1];
+    let map = match ok(d.optimize(&roots)) {
+        Some(m) => m,
+        None => {
+            pa!("C19", false);
+            std::mem::forget(d);
+            return;
+        }
+    };
+    pa!("C19", map.len() == 2);
+    let (me, mp) = (map[0], map[1]);
+    std::mem::forget(map);
+    if RETAIN {
+        pa!("C19", mp == r1);
+    }
+    let (mut gv, mut gr, mut ge, mut gp) = (Fingerprint::new(), Fingerprint::new(), Fingerprint::new(), Fingerprint::new());
+    match d.get_current_value() {
+        Some(x) => fingerprint(&d, x, 4, &mut gv),
+        None => pa!("C19", false),
+    }
+    pa!("C19", gv.same(&fv));
+    fingerprint(&d, me, 4, &mut ge);
+    pa!("C19", ge.same(&fe));
+    fingerprint(&d, mp, 4, &mut gp);
+    pa!("C19", gp.same(&fp));
+    match ok(d.pop_register()) {
+        Some(Some(x)) => fingerprint(&d, x, 4, &mut gr),
+        _ => pa!("C19", false),
+    }
+    pa!("C19", gr.same(&fr));
+    pa!("C19", matches!(ok(d.pop_register()), Some(None)));
+    pa!("C19", d.pop_value_stack().is_some() && d.pop_value_stack().is_none());
+    std::mem::forget(d);
+}
+
+/// C19 (optimize, frames): garbage, frame x pushed [K&1: with an operand pending], frame y pushed [K&2: with an
+/// operand pending] - so the inner frame is a "call made inside a call", for K&2 == 0 with an empty operand
+/// stack - then optimize moves everything down over the garbage. Execution continues as if nothing had happened:
+/// pop_frame returns y then x, restores the operand depth of each call, then reports no frame.
+pub fn basic_optimize_frames<N: Nondet, const K: u8>(n: &mut N) {
+    let mut d = sized_basic(16, 30);
+    let (x, y, a) = (n.usize_below(1000), n.usize_below(1000), n.i32());
+    let _g0 = d.add_number(SimpleNumber::Integer(a)).unwrap();
+    let _g1 = d.add_unit().unwrap();
+    let u = d.add_true().unwrap();
+    if K & 1 != 0 {
+        d.push_register(u).unwrap();
+    }
+    d.push_frame(x).unwrap();
+    if K & 2 != 0 {
+        d.push_register(u).unwrap();
+    }
+    d.push_frame(y).unwrap();
+    gv_cover!(true, "frames pushed");
+    let r = ok(d.optimize(&[]));
+    pa!("C19", r.is_some());
+    std::mem::forget(r);
+    pa!("C19", matches!(ok(d.pop_frame()), Some(Some(p)) if p == y));
+    // operands of the outer call: the one pushed after frame x (if any)
+    if K & 2 != 0 {
+        pa!("C19", matches!(ok(d.pop_register()), Some(Some(r)) if matches!(ok(d.get_data_type(r)), Some(T::True))));
+    }
+    pa!("C19", matches!(ok(d.pop_frame()), Some(Some(p)) if p == x));
+    if K & 1 != 0 {
+        pa!("C19", matches!(ok(d.pop_register()), Some(Some(r)) if matches!(ok(d.get_data_type(r)), Some(T::True))));
+    }
+    pa!("C19", matches!(ok(d.pop_register()), Some(None)));
+    pa!("C19", matches!(ok(d.pop_frame()), Some(None)));
+    std::mem::forget(d);
+}
